@@ -141,12 +141,38 @@ def run_local(case):
 # S3 conditional-write lock under the scheduler
 # ---------------------------------------------------------------------------------------------
 def run_s3(case):
+    # the process's local time zone is part of the scenario: lease ages are differences of instants and must not depend on it
+    import os as _os
+    import time as _time
+
+    tz = case["sc"].get("tz")
+    if not tz:
+        return _run_s3(case)
+    old = _os.environ.get("TZ")
+    _os.environ["TZ"] = tz
+    _time.tzset()
+    try:
+        out = _run_s3(case)
+        out["labels"].append("tz:east" if tz.startswith("EET") or "-" in tz else "tz:west")
+        return out
+    finally:
+        if old is None:
+            _os.environ.pop("TZ", None)
+        else:
+            _os.environ["TZ"] = old
+        _time.tzset()
+
+
+def _run_s3(case):
     out = {"violations": [], "labels": ["s3"], "nontrivial": False}
     sc = case["sc"]
     fake = FakeS3(page_size=50)
     world = S3World(fake, table="tbl", env_prefix="")
     key = "tbl/.locks/metadata.lock"
     sch = Scheduler(case["schedule"], max_decisions=30000)
+    # virtual time starts at the real clock (the fake store stamps LastModified with real instants): code that compares time.time()
+    # with an object's LastModified sees consistent epochs
+    sch.now = __import__("time").time()
     st_ = Stepper()
     st_.handler = lambda n, phase, label, target, info: sch.step(phase, label, target, info)
     state = {"inside": [], "overlaps": [], "attempting": set(), "contended": False, "bad_held": [], "owner": None, "superseded": set(), "lapsed": False, "log_pos": 0,
@@ -512,6 +538,11 @@ FIXED = [
     {"kind": "s3", "timeout": 8.0, "contenders": [{"rounds": 2, "fail_release": True}, {}], "extras": [{"kind": "age", "seconds": 120}]},
     {"kind": "s3", "timeout": 8.0, "contenders": [{"hold": 0.5, "fail_readback": True}, {"hold": 0.5}], "extras": [{"kind": "age", "seconds": 120}]},
     {"kind": "s3", "timeout": 8.0, "contenders": [{"hold": 0.5, "fail_readback": True}, {"hold": 0.5}, {}], "extras": [{"kind": "age", "seconds": 120}]},
+    # the holder is taken over after a lapse and the new holder RELEASES (the lock object is gone): the old holder, still inside its
+    # critical section, must not see itself as holding (probe = is_held() as the commit path calls it before the commit point)
+    {"kind": "s3", "timeout": 8.0, "all_orders": True, "contenders": [{"hold": 0.5}, {}], "extras": [{"kind": "age", "seconds": 120}, {"kind": "probe", "of": 0}]},
+    {"kind": "s3", "timeout": 4.0, "tz": "EET-2", "contenders": [{"hold": 1000.0}, {}], "extras": [{"kind": "age", "seconds": 30}]},
+    {"kind": "s3", "timeout": 8.0, "tz": "PST8", "contenders": [{"hold": 0.5}, {}], "extras": [{"kind": "age", "seconds": 120}]},
     # the same provider holds the lock in two successive tenures while a contender that saw the FIRST one expired is still on its way
     {"kind": "s3", "timeout": 8.0, "contenders": [{"rounds": 2}, {}], "extras": [{"kind": "age", "seconds": 120}]},
 ]
@@ -524,7 +555,10 @@ def run_enum(task):
     o = run_case({"kind": "sched", "sc": sc, "schedule": {"order": list(range(n))}, "seed": 1})
     D = min(o.get("decisions", 60), 400)
     scheds = []
-    for order in (list(range(n)), list(reversed(range(n)))):
+    import itertools as _it
+
+    orders = [list(o_) for o_ in _it.permutations(range(n))] if sc.get("all_orders") else [list(range(n)), list(reversed(range(n)))]
+    for order in orders:
         scheds.append({"order": order})
         for i in range(1, int(D * 1.1) + 2):
             for j in range(n):
@@ -587,7 +621,7 @@ def pct_case(draw):
     m = n + len(extras)
     order = draw(st.permutations(list(range(m))))
     pre = [[draw(st.integers(1, 120)), draw(st.integers(0, m - 1))] for _ in range(draw(st.integers(0, 4)))]
-    return {"kind": "sched", "sc": {"kind": kind, "timeout": 8.0, "contenders": cont, "extras": extras, **({"lock_age": lock_age} if kind == "local" and lock_age else {})}, "schedule": {"order": list(order), "preempt": sorted(pre)},
+    return {"kind": "sched", "sc": {"kind": kind, "timeout": 8.0, "contenders": cont, "extras": extras, **({"lock_age": lock_age} if kind == "local" and lock_age else {}), **({"tz": draw(st.sampled_from(["EET-2", "PST8", "IST-5:30", "NZST-12"]))} if kind == "s3" and draw(st.integers(0, 2)) == 0 else {})}, "schedule": {"order": list(order), "preempt": sorted(pre)},
             "seed": draw(st.integers(0, 3))}
 
 
